@@ -35,11 +35,13 @@ func enumCanCall(tier string, _ time.Time) *run.EnumResult {
 	}
 	var methods []string
 	for _, s := range uniq {
-		if len(s) <= 3 && !strings.Contains(s, ",") {
+		// a comma is a legal character of a method name: such a method can
+		// never be an entry of the comma separated list
+		if len(s) <= 3 {
 			methods = append(methods, s)
 		}
 	}
-	res := &run.EnumResult{Exhaustive: true, Rule: fmt.Sprintf("call matcher: every call list over {a,b,ab,\",\",*} up to %d bytes x every method up to 3 bytes over {a,b,*} through the real Access.CanCall; reference: list == \"*\" or method is an exact entry of the comma separated list; distinct_nontrivial counts pairs with a non-empty list other than \"*\"", max)}
+	res := &run.EnumResult{Exhaustive: true, Rule: fmt.Sprintf("call matcher: every call list over {a,b,ab,\",\",*} up to %d bytes x every method up to 3 bytes over {a,b,\",\",*} through the real Access.CanCall; reference: list == \"*\" or method is an exact entry of the comma separated list; distinct_nontrivial counts pairs with a non-empty list other than \"*\"", max)}
 	for _, list := range uniq {
 		for _, m := range methods {
 			if m == "" {
